@@ -217,10 +217,14 @@ Ltac ground :=
   | |- _ \/ _ => right; vm_compute; reflexivity
   | |- ~ _ =>
       let H := fresh "H" in
-      intro H; first [discriminate H | exact H | (vm_compute in H; discriminate H)]
+      intro H; vm_compute in H; first [discriminate H | exact H]
   | |- _ -> _ =>
       let H := fresh "H" in
-      intro H; first [discriminate H | exact H | (vm_compute in H; discriminate H) | idtac]
+      intro H; vm_compute in H; first [discriminate H | exact H | idtac]
+  | |- ws_ok _ => unfold ws_ok
+  | |- snum_ok _ =>
+      unfold snum_ok, int_ok, digits_ok, sn_digit, sn_3_5; cbn [sn_int sn_frac sn_exp]
+  | |- schar_ok _ => unfold schar_ok
   | |- _ =>
       progress cbn [wf seps_ok' ws_ok snum_ok int_ok digits_ok schar_ok fst snd sn_int sn_frac sn_exp
                     sn_digit sn_3_5 map str_val char_val In]
